@@ -56,6 +56,13 @@ type (
 		A int    `plenc:"1"`
 		B string `plenc:"2"`
 	}
+	// RefNode refers to its parent through the tag option rf, for which an instance may register a codec for
+	// the struct type RefNode itself (C17: a tagged registration used from inside the very type it is for).
+	RefNode struct {
+		ID     int32    `plenc:"1"`
+		Name   string   `plenc:"2"`
+		Parent *RefNode `plenc:"3,rf"`
+	}
 )
 
 // Recursive definitions that must be rejected (an unsupported field after the recursive one): the
@@ -118,6 +125,7 @@ func init() {
 	reg("NMap", NMap(nil))
 	reg("NStruct", NStruct{})
 	reg("NKey", NKey{})
+	reg("RefNode", RefNode{})
 	_ = NStruct{}.c
 }
 
